@@ -511,8 +511,9 @@ class Model:
 # bookkeeping model of the history (what has been stored / added); shared by generator and interpreter
 
 class HistState:
-    def __init__(self, comps, sys_orbs, modes=None, allow=()):
+    def __init__(self, comps, sys_orbs, modes=None, allow=(), gp2=False):
         self.comps = list(comps)
+        self.gp2 = bool(gp2)
         self.modes = list(modes) if modes is not None else ["SEP"] * len(comps)
         self.allow = set(allow)    # names of excluded regions (recorded defects) a sub-check enters on purpose
         self.sys_orbs = [[(o[0], int(o[1])) for o in orbs] for orbs in sys_orbs]
@@ -529,11 +530,7 @@ class HistState:
         return [i for i, c in enumerate(self.comps) if c == "x"]
 
     def mode0_ok(self):
-        if not self.xk:
-            return False
-        if "pol_nctrl" not in self.allow and any(c != "x" and m == "POL" for c, m in zip(self.comps, self.modes)):
-            return False
-        return True
+        return bool(self.xk)
 
     def store_valid(self, sysl, deriv, corr):
         if not sysl:
@@ -547,11 +544,10 @@ class HistState:
                 return False
             if fl is None and any(has) and not all(has):
                 return False  # 'reads them iff available' is only well defined for a homogeneous list
-            d = all(has) if fl is None else bool(fl)
-            if d and self.modes[ik] == "POL" and "pol_deriv" not in self.allow:
-                return False  # excluded region: POL kernels cannot evaluate kernel derivatives (see c16.py)
-        if not (corr or self.comps[0] == "x") and "c_first" not in self.allow:
-            return False  # excluded region: reference data are only saved together with kernel 0 (see c16.py)
+            if self.gp2 and (all(has) if fl is None else bool(fl)) and "gp2_deriv" not in self.allow:
+                return False  # excluded region (open finding): MOLGP2 cannot process derivative data (see c16.py)
+        if not (corr or "x" in self.comps):
+            return False      # no kernel would be processed: the call is a no-op
         return True
 
     def store(self, sysl, deriv, corr):
@@ -565,8 +561,7 @@ class HistState:
                 if d:
                     self.dcov[ik].add(i)
                     self.drefs.add(i)
-            # documented: store_mol_covs "also stores the reference energy data" (the implementation ties this to the
-            # first kernel of the list; the generators keep that kernel inside every call, see store_valid)
+            # documented: store_mol_covs "also stores the reference energy data" (whichever kernel is processed first)
             self.refs.update(sysl)
 
     def plain_ok(self, mode):
@@ -586,15 +581,12 @@ class HistState:
     def rxn_valid(self, r):
         if r["mode"] == 0 and not self.xk:
             return False
-        if r["mode"] == 0 and "pol_nctrl" not in self.allow and any(
-                c != "x" and m == "POL" for c, m in zip(self.comps, self.modes)):
-            return False  # excluded region: zero rows of a POL correlation kernel have the wrong length (see c16.py)
         plain = set(self.plain_ok(r["mode"]))
         tup = set((i, o) for i, o in self.tuple_ok())
         for st in r["structs"]:
             if isinstance(st, (list, tuple)):
                 if r["mode"] != 0 and "deriv_mode2" not in self.allow:
-                    return False  # excluded region: derivative entries in mode-2 reactions (see c16.py)
+                    return False  # excluded region (open finding): derivative entries in mode-2 reactions (see c16.py)
                 if (int(st[0]), (st[1][0], int(st[1][1]))) not in tup:
                     return False
             elif int(st) not in plain:
